@@ -345,6 +345,9 @@ func rulePanicCensus(c *Ctx) {
 				}
 				c.inst(1)
 				name := fnName(TopLevel(fn))
+				if o, owned := p.ownedBy(fn, func(nm string) bool { _, l := allowedPanics[nm]; return l }); owned {
+					name = o
+				}
 				why, ok := allowedPanics[name]
 				c.check(ok, name, "explicit panic is a listed one", p.InstrPos(x), why, "explicit panic reachable at run time terminates the gateway (no recover anywhere)")
 			case *ssa.TypeAssert:
@@ -353,6 +356,9 @@ func rulePanicCensus(c *Ctx) {
 				}
 				c.inst(1)
 				name := fnName(TopLevel(fn))
+				if o, owned := p.ownedBy(fn, func(nm string) bool { _, l := allowedAsserts[nm]; return l }); owned {
+					name = o
+				}
 				why, ok := allowedAsserts[name]
 				c.check(ok, name, "unchecked type assertion is a listed one", p.InstrPos(x), why, "unchecked type assertion panics on an unexpected dynamic type")
 			}
